@@ -6,7 +6,7 @@ import io
 import sys
 
 from gunicorn.http.errors import (NoMoreData, ChunkMissingTerminator,
-                                  InvalidChunkSize)
+                                  InvalidChunkSize, LimitRequestHeaders)
 
 
 class ChunkedReader:
@@ -44,9 +44,13 @@ class ChunkedReader:
         idx = buf.getvalue().find(b"\r\n\r\n")
         done = buf.getvalue()[:2] == b"\r\n"
         while idx < 0 and not done:
+            if buf.tell() - 3 > self.req.max_buffer_headers:
+                raise LimitRequestHeaders("max buffer trailers")
             self.get_data(unreader, buf)
             idx = buf.getvalue().find(b"\r\n\r\n")
             done = buf.getvalue()[:2] == b"\r\n"
+        if not done and idx > self.req.max_buffer_headers:
+            raise LimitRequestHeaders("max buffer trailers")
         if done:
             unreader.unread(buf.getvalue()[2:])
             return b""
